@@ -249,6 +249,27 @@ int main()
         printf("m eig %s => %s %s\n", S.c_str(), vecD(ev).c_str(), matText(*sym.getEigenVectors()).c_str());
       }
       st.hit("certificates");
+      // symmetric invertible matrices that are NOT positive definite (dense storage classes: general and symmetric):
+      // a bordered (kriging-like) system [S 1; 1t 0] and the opposite of a positive definite matrix
+      if (n <= 6)
+      {
+        Tab bord(n + 1, std::vector<double>(n + 1, 0.)), neg(n, std::vector<double>(n, 0.));
+        for (int i = 0; i < n; i++) { for (int j = 0; j < n; j++) { bord[i][j] = spd[i][j]; neg[i][j] = -spd[i][j]; } bord[i][n] = bord[n][i] = 1.; }
+        for (int which = 0; which < 2; which++)
+        {
+          const Tab& M = which == 0 ? bord : neg; int nn = which == 0 ? n + 1 : n;
+          std::string SM = tabText(M, nn, nn);
+          VectorDouble bb = genVec(rng, nn, false);
+          for (int k3 = 1; k3 <= 2; k3++)
+          {
+            std::unique_ptr<AMatrix> m1(build(k3, M, nn, nn)), m2(build(k3, M, nn, nn));
+            VectorDouble xx(nn);
+            if (m1->solve(bb, xx) == 0) printf("m solve %s %s => %s\n", SM.c_str(), vecD(bb).c_str(), vecD(xx).c_str());
+            if (m2->invert() == 0) printf("m inv %s => %s\n", SM.c_str(), matText(*m2).c_str());
+          }
+          st.hit(which == 0 ? "indefinite_bordered_systems" : "negative_definite_systems");
+        }
+      }
     }
     // numeric vector helpers
     {
